@@ -33,9 +33,16 @@ def build(S, spec, complex_=None):
     nm = spec.get("name", "a")
     blocks = {}
     cx = spec.get("cx")  # mixed arrays: exactly these sectors hold complex entries, the others real
+    machine = spec.get("machine", ())  # these sectors hold *concrete* float64 numbers also in symbolic runs (a real machine dtype next to term blocks)
     for sector in spec["present"]:
         cflag = complex_ if cx is None else (sector in cx)
-        blocks[sector] = S.fill(f"{nm}{_sec(sector)}", block_shape(spec, sector), cflag)
+        if sector in machine and S.mode == "sym":
+            import random as _random
+            r = _random.Random(f"{nm}{_sec(sector)}")
+            shp = block_shape(spec, sector)
+            blocks[sector] = _np.array([r.randint(-8, 8) / 4.0 or 0.75 for _ in range(int(_np.prod(shp)))], dtype=_np.float64).reshape(shp)
+            continue
+        blocks[sector] = S.fill(f"{nm}{_sec(sector)}", block_shape(spec, sector), False if sector in machine else cflag)
     kw = {}
     if generic:
         kw["symmetry"] = spec["sym"]
